@@ -368,7 +368,7 @@ impl SExec {
                 let b = self.sim.query(&tok, "balance", (self.p[i].clone(),).into_val(&env));
                 let bv = b.val().and_then(|v| i128::try_from_val(&env, &v).ok());
                 let w = *self.m.bal[t].get(&i).unwrap_or(&0);
-                if !ctx.check(bv == Some(w), &["C14"], "invariant/user-balance-differs", || format!("token {} balance(p{}) = {:?}, model {}", t, i, bv, w)) {
+                if !ctx.check(bv == Some(w), &["C14", "C07"], "invariant/user-balance-differs", || format!("token {} balance(p{}) = {:?}, model {}", t, i, bv, w)) {
                     return;
                 }
             }
@@ -380,7 +380,7 @@ impl SExec {
         }
         let c = self.sim.query(&self.gas.clone(), "gas_collector", SVec::new(&env));
         let cv = c.val().and_then(|v| Address::try_from_val(&env, &v).ok());
-        ctx.check(cv.as_ref() == Some(&self.p[self.m.collector]), &["C06"], "invariant/gas-collector-differs", || {
+        ctx.check(cv.as_ref() == Some(&self.p[self.m.collector]), &["C06", "C14"], "invariant/gas-collector-differs", || {
             "gas_collector() is no longer the address named at construction (the role has no transfer entry point)".into()
         });
     }
